@@ -212,7 +212,8 @@ Fixpoint exec (fuel ofuel : nat) (loc : bool) (d : nat) (ss : list stmt) (m : ms
     end
   end.
 
-Definition FUEL : nat := 3000.
+(* bounds the number of statements of a block and the rounds of a loop (not the total work) *)
+Definition FUEL : nat := 150.
 
 Definition finish (loc : bool) (r : ctl * mstate) : list (list byte) :=
   let '(c, m) := r in
